@@ -14,6 +14,7 @@ EXTENDS Exec, Json, IOUtils
 Rec == ndJsonDeserialize(IOEnv.TRACE)
 Mode == IOEnv.MODE
 MaxSet == 6000
+PerturbMax == IF "TIER" \in DOMAIN IOEnv /\ IOEnv.TIER = "thorough" THEN 100000 ELSE 48
 VARIABLE l
 IsEvent(k) == l <= Len(Rec) /\ Rec[l].ev = k /\ l' = l + 1
 Stat(s) == PrintT(<<"STAT", ToJson(s)>>)
@@ -49,7 +50,12 @@ DefItems(S, cfg, env, frs, X, name) ==
           IN IF size > MaxSet \div 10 THEN {Item("$discard", "reference set beyond the bound", [ctx |-> ctx, size |-> size])}
              ELSE LET members == UNION {ExecSel(S, cfg, frs, tau, X.sel, <<>>, TRUE, BV) : tau \in taus}
                       A == AltAtoms(S)
-                      cands == UNION {Perturb(r, A) : r \in members}
+                      (* one-position perturbations are taken of at most PerturbMax members of the reference set, evenly                    *)
+                      (* spread over the (deterministically ordered) member set - quick tier 48, thorough tier all                          *)
+                      mseq == SetToSeq(members)
+                      step == IF Len(mseq) <= PerturbMax THEN 1 ELSE (Len(mseq) + PerturbMax - 1) \div PerturbMax
+                      picked == {mseq[i] : i \in {j \in DOMAIN mseq : j % step = 0}}
+                      cands == UNION {Perturb(r, A) : r \in picked}
                       InTsExact(v) == MemberExact(v, d.stmt.t, env, ScopeOfDecl(d), 24)
                       loose == {v \in cands : InTsExact(v) /\ ~InSel(v, S, cfg, frs, taus, X.sel, BV)}
                       dropped == DroppedKeys(d.stmt.t, env, ScopeOfDecl(d))
